@@ -113,8 +113,13 @@ func (g *typeGen) leaf() *tv.Desc {
 		return &tv.Desc{K: "slice", Elem: &tv.Desc{K: "int"}}
 	case x < 89:
 		return &tv.Desc{K: "map", Key: &tv.Desc{K: "string"}, Elem: &tv.Desc{K: "int"}}
-	case x < 93:
+	case x < 91:
 		return &tv.Desc{K: "any"}
+	case x < 93:
+		if g.v1mode {
+			return &tv.Desc{K: "any"}
+		}
+		return &tv.Desc{K: g.pick("methleaf", []string{"pool:MethStr", "pool:MethSlice"})}
 	default:
 		g.nextID++
 		s := &tv.Desc{K: "struct", ID: g.nextID, Fields: []tv.Field{
@@ -472,7 +477,7 @@ func genCase(t *rapid.T) Case {
 		} else {
 			sets = optSets
 		}
-		tr := Trial{Opts: sets[g.intn("optset", len(sets))], Names: g.names(candNames), Dup: rapid.Bool().Draw(t, "dup")}
+		tr := Trial{Opts: sets[g.intn("optset", len(sets))], Names: g.names(candNames), Dup: rapid.Bool().Draw(t, "dup"), Funcs: g.intn("funcs", 4) == 0}
 		c.Trials = append(c.Trials, tr)
 	}
 	return c
